@@ -73,7 +73,22 @@ def to_wikitext(
             node = re.sub(r"\](?=\])", "]<noinclude/>", node)
             return node
         if isinstance(node, (list, tuple)):
-            return "".join(map(recurse, node))
+            pieces: list[str] = []
+            prev = None
+            for x in node:
+                part = recurse(x)
+                if (
+                    isinstance(x, str)
+                    and isinstance(prev, WikiNode)
+                    and pieces[-1].endswith("\n")
+                ):
+                    # Text that followed a block construct on its line
+                    # ("|} text", "---- text") now starts a line of its
+                    # own, where a leading blank would make it preformatted.
+                    part = part.lstrip(" \t")
+                pieces.append(part)
+                prev = x
+            return "".join(pieces)
         if not isinstance(node, WikiNode):
             raise RuntimeError("invalid WikiNode: {}".format(node))
 
